@@ -432,6 +432,11 @@ def _post(spec: Spec, cx, a, b, outcome):
             compare(cx, x, y, lab)
     for label, f in spec.ensures(cx, a, result):
         cx.oblige_item(label, f, kind="post")
+    # frame: module-level containers the function touched must be unchanged (history independence of later calls)
+    from .interp import same_structure
+
+    for (dotted, name), (obj, snap) in cx.ghost.get("module_state", {}).items():
+        cx.oblige(f"frame: module-level {dotted}.{name} is not modified (a later call must not depend on this one)", same_structure(obj, snap), kind="post")
 
 
 class Lemma:
